@@ -32,11 +32,23 @@ def ctOf (s : String) : Option (Option Text) :=
     | first :: _ => (unhexText first).map some     -- `HeaderMap::get` returns the first value
     | [] => none
 
+/-- Rust `str::parse::<u32>`: an optional leading `+`, then one or more ASCII digits, value < 2^32 -/
+def parseU32 (s : String) : Option Nat :=
+  let cs := s.toList
+  let ds := match cs with
+    | '+' :: r => r
+    | r => r
+  if ds.isEmpty || !ds.all (fun c => '0' ≤ c && c ≤ '9') then none
+  else
+    let n := ds.foldl (fun a c => a * 10 + (c.toNat - 48)) 0
+    if n < 4294967296 then some n else none
+
+/-- `read_header_content_length`: exactly one Content-Length value that parses as u32, else ignored
+(several values travel comma-separated on the op line) -/
 def clOf (s : String) : Option (Option Nat) :=
   if s == "none" then some none
-  else match s.toNat? with
-    | some n => if n < 4294967296 then some (some n) else some none   -- must fit a u32, else ignored
-    | none => some none
+  else if s.contains ',' then some none
+  else some (parseU32 s)
 
 def sortStrings (l : List String) : List String := (l.toArray.qsort (fun a b => a < b)).toList
 
